@@ -69,6 +69,9 @@ type caseT struct {
 	// ViaNew: options left out of the New(...) call — the documented defaults (100 requests/s, burst 20, key
 	// "ip:"+ClientIP) must then apply, whatever other limiters the process has built before
 	OmitRate, OmitBurst, OmitKey bool `json:",omitempty"`
+	// JunkOpts (ViaNew): after the real options, WithRequestsPerSecond / WithBurst are given again with values that are
+	// not positive — "if rps > 0": they must be ignored, the earlier value (or the default) stays
+	JunkOpts []int `json:",omitempty"`
 	// Method: HTTP method of the requests of a middleware case ("" = GET)
 	Method string `json:",omitempty"`
 	// EpochAgoSec: tick 0 of this case lies that many seconds before the moment the case is run
@@ -199,7 +202,6 @@ func (k *scrCase) run(id string) (line string, discard string, nontrivial bool) 
 	}
 	return l.String(), "", nontrivial
 }
-
 
 func (k *caseT) at(tick int64) time.Time {
 	if k.EpochAgoSec != 0 {
@@ -596,6 +598,9 @@ func (k *caseT) runMw(id string, st *hx.Stats, gen *traceGen, n int) string {
 			if !k.OmitBurst {
 				nopts = append(nopts, ratelimit.WithBurst(k.Burst))
 			}
+			for _, j := range k.JunkOpts {
+				nopts = append(nopts, ratelimit.WithRequestsPerSecond(j), ratelimit.WithBurst(j))
+			}
 			if !k.OmitKey {
 				nopts = append(nopts, ratelimit.WithKeyFunc(func(c *router.Context) string { return c.Request.Header.Get("X-Key") }))
 			}
@@ -697,7 +702,30 @@ func (k *caseT) runMw(id string, st *hx.Stats, gen *traceGen, n int) string {
 			rows[i].o = outT{rows[i].m.Status != http.StatusTooManyRequests, rem, rst}
 		}
 	}
-	l := hx.NewLine(id).Tok("M").Nat(k.Rate).Nat(k.Burst).Bool(k.Headers).Bool(k.Enforce).Bool(k.Callback)
+	l := hx.NewLine(id)
+	if k.ViaNew {
+		// ratelimit.New: the option VALUES as given, in order — the model applies the defaults (100/s, burst 20) and
+		// the "only if positive" guards itself (Model.newConfig)
+		var ro, bo []int
+		if !k.OmitRate {
+			ro = append(ro, k.Rate)
+		}
+		if !k.OmitBurst {
+			bo = append(bo, k.Burst)
+		}
+		ro, bo = append(ro, k.JunkOpts...), append(bo, k.JunkOpts...)
+		l.Tok("N").Nat(len(ro))
+		for _, v := range ro {
+			l.I64(int64(v))
+		}
+		l.Nat(len(bo))
+		for _, v := range bo {
+			l.I64(int64(v))
+		}
+	} else {
+		l.Tok("M").Nat(k.Rate).Nat(k.Burst)
+	}
+	l.Bool(k.Headers).Bool(k.Enforce).Bool(k.Callback)
 	if k.OmitKey {
 		// the default key: "ip:" + ClientIP() — httptest requests all come from 192.0.2.1
 		eff := make([]callT, len(k.Calls))
@@ -754,17 +782,17 @@ func first(v []string) string {
 type winReq struct {
 	Key string
 	// phase structure for generation/replay: wait before issuing
-	SleepToNextWindow bool  `json:",omitempty"` // sleep until the next window starts (+OffsetMs)
-	OffsetMs          int   `json:",omitempty"`
-	RetryOf           int   `json:",omitempty"` // 1+index of the 429 this request retries after its Retry-After
-	PauseCleanup      bool  `json:",omitempty"` // wait until the store's cleanup ticker has fired once
-	Noise             bool  `json:",omitempty"` // (default-store cases) the request goes to the second limiter and is not judged
-	NextSec           bool  `json:",omitempty"` // (default-store cases) first sleep into the next wall-clock second
-	SleepMs           int   `json:",omitempty"` // sleep that long before the request
+	SleepToNextWindow bool `json:",omitempty"` // sleep until the next window starts (+OffsetMs)
+	OffsetMs          int  `json:",omitempty"`
+	RetryOf           int  `json:",omitempty"` // 1+index of the 429 this request retries after its Retry-After
+	PauseCleanup      bool `json:",omitempty"` // wait until the store's cleanup ticker has fired once
+	Noise             bool `json:",omitempty"` // (default-store cases) the request goes to the second limiter and is not judged
+	NextSec           bool `json:",omitempty"` // (default-store cases) first sleep into the next wall-clock second
+	SleepMs           int  `json:",omitempty"` // sleep that long before the request
 	// ErrBefore "G"/"I": before this request ANOTHER client's request (own key, not part of the case) is served
 	// for which the store fails in GetCounts resp. Incr — a store error must not change anything for other keys
 	ErrBefore string `json:",omitempty"`
-	now               int64 // t0 in ns (filled while running)
+	now       int64  // t0 in ns (filled while running)
 }
 
 type opT struct {
@@ -795,16 +823,16 @@ type winCase struct {
 	Atomic bool `json:",omitempty"`
 	// Burst: G requests released together on the REAL in-memory store (no wrapper, real contention on the entry
 	// lock); the responses are sorted into the order the store served them (by the count each one saw)
-	Burst        int  `json:",omitempty"`
+	Burst int `json:",omitempty"`
 	// Held: (real in-memory store, window 1 s, OnExceeded callback) the window is filled, one more request is rejected
 	// and its callback is HELD — a slow client or a slow callback — across the window boundary; late in the next
 	// window a request is admitted, then the held rejection completes, then Limit more requests follow. Whatever a
 	// limiter does when a rejection completes (clean up, refund, log), the next window admits at most Limit
-	Held         bool `json:",omitempty"`
-	NoiseW       int  `json:",omitempty"`
-	NoiseLimit   int  `json:",omitempty"`
-	Reqs                       []winReq
-	Sched                      []opT
+	Held       bool `json:",omitempty"`
+	NoiseW     int  `json:",omitempty"`
+	NoiseLimit int  `json:",omitempty"`
+	Reqs       []winReq
+	Sched      []opT
 }
 
 type ctxKey struct{}
@@ -2009,6 +2037,9 @@ func main() {
 						k.OmitBurst, k.Burst = true, 20
 					}
 					k.OmitKey = r.Chance(1, 4)
+					if r.Chance(1, 3) {
+						k.JunkOpts = hx.Pick(r, [][]int{{0}, {-1}, {0, -100}, {-5, 0}})
+					}
 				} else if r.Chance(1, 60) {
 					k.Flood = 70000
 				} else if r.Chance(1, 10) {
